@@ -149,8 +149,30 @@ class SSI_mpe_havoc(_MpeHavoc):
     qualname = "pyoma2.algorithms.ssi.SSIdat.mpe"
 
 
+class _MpeFromPlotHavoc(Contract):
+    name = "havoc-mpe_from_plot"
+    verify_body = False
+
+    def apply(self, interp, args, kwargs):
+        c = cur()
+        c.memo.setdefault("ghost:mpe_from_plot_calls", []).append((args[0], tuple(args[1:]), dict(kwargs)))
+        return None
+
+
+@register
+class FDD_mpe_from_plot_havoc(_MpeFromPlotHavoc):
+    qualname = "pyoma2.algorithms.fdd.FDD.mpe_from_plot"
+
+
+@register
+class SSI_mpe_from_plot_havoc(_MpeFromPlotHavoc):
+    qualname = "pyoma2.algorithms.ssi.SSIdat.mpe_from_plot"
+
+
 USE = {"pyoma2.algorithms.fdd.FDD.run": "havoc-run", "pyoma2.algorithms.ssi.SSIdat.run": "havoc-run",
        "pyoma2.algorithms.fdd.FDD.mpe": "havoc-mpe", "pyoma2.algorithms.ssi.SSIdat.mpe": "havoc-mpe",
+       "pyoma2.algorithms.fdd.FDD.mpe_from_plot": "havoc-mpe_from_plot",
+       "pyoma2.algorithms.ssi.SSIdat.mpe_from_plot": "havoc-mpe_from_plot",
        }
 
 
@@ -310,6 +332,46 @@ class _SetupMpe(Contract):
 @register
 class setup_mpe(_SetupMpe):
     name = "registered name"
+
+
+class _SetupMpeFromPlot(_SetupMpe):
+    """BaseSetup.mpe_from_plot: the named algorithm's interactive extraction is started exactly once with the caller's
+    arguments; the plain mpe of no algorithm is called; nothing of the setup or of any algorithm is changed by the
+    forwarding layer itself; an unknown name raises KeyError before anything is called"""
+    qualname = "pyoma2.setup.base.BaseSetup.mpe_from_plot"
+    props = ("C15", "C16")
+
+    def check(self, c, pre, post, outcome):
+        P, Q = pre["self"], post["self"]
+        calls = c.memo.get("ghost:mpe_from_plot_calls", [])
+        c.oblige("post", "plain mpe is not called", len(c.memo.get("ghost:mpe_calls", [])) == 0)
+        c.oblige("post", "no run is started", len(c.memo.get("ghost:run_calls", [])) == 0)
+        _same_fields(c, "setup", P, Q)
+        if self.target not in P.fields["algorithms"]:
+            c.oblige("post", "unknown name raises KeyError", outcome == ("raise", "KeyError"), {"outcome": str(outcome)})
+            c.oblige("post", "no extraction called", len(calls) == 0)
+            return
+        c.oblige("post", "returns", outcome[0] == "return")
+        c.oblige("post", "the named algorithm's mpe_from_plot is called once with the caller's arguments",
+                 len(calls) == 1 and calls[0][0] is Q.fields["algorithms"][self.target] and len(calls[0][1]) == 1
+                 and calls[0][1][0] is pre["args"][0] and list(calls[0][2]) == ["rtol"] and calls[0][2]["rtol"] is pre["kwargs"]["rtol"])
+
+
+@register
+class setup_mpe_from_plot_a(_SetupMpeFromPlot):
+    name = "first algorithm"
+    target = "a"
+
+
+@register
+class setup_mpe_from_plot_b(_SetupMpeFromPlot):
+    name = "second algorithm"
+
+
+@register
+class setup_mpe_from_plot_missing(_SetupMpeFromPlot):
+    name = "unknown name"
+    target = "zz"
 
 
 @register
